@@ -790,6 +790,9 @@ func (tb *Table) ToCode(s *Term) *Term {
 	return tb.app("str.to_code", Int, s)
 }
 func (tb *Table) FromCode(i *Term) *Term {
+	if i.Op == "str.to_code" && len(i.Args) == 1 && tb.unit[i.Args[0]] {
+		return i.Args[0] // from_code(to_code(c)) = c for a single character c
+	}
 	if i.IsConst() && i.I.IsInt64() && i.I.Int64() >= 0 && i.I.Int64() < 256 {
 		return tb.StrC(string([]byte{byte(i.I.Int64())}))
 	}
